@@ -255,6 +255,13 @@ theorem property_values_refused_unchanged (f : File) (now : Nat) (x : Arg) (e : 
     (runSetter writeDataSteps propertyValues f now x).1 = f :=
   Nix.VecWrite.property_values_refused_unchanged f now x e h
 
+/-- **`RangeDimension.ticks`**: a refused assignment leaves the stored ticks *and the dimension's link* as they were
+(`hinv`: a linked dimension holds no ticks dataset — `link_data_array` / `link_data_frame` drop it) -/
+theorem ticks_refused_unchanged (f : File) (hinv : f.link = true → f.ds = none) (now : Nat) (x : Arg) (e : Err)
+    (h : (runWith writeDataSteps rangeTicks { x := x, now := now, file := f }).2 = some e) :
+    (runWith writeDataSteps rangeTicks { x := x, now := now, file := f }).1.file = f :=
+  Nix.VecWrite.ticks_refused_unchanged f hinv now x e h
+
 /-- the statements are about the order and the condition found in the source: with the conversion skipped for
 ndarrays, or placed after the resize, the refused `position = np.array(['a','b','c'])` pads the stored `[3/2]` -/
 theorem write_order_matters :
@@ -274,6 +281,18 @@ example : runSetter writeDataSteps tagPosition demoM.file 9
     (.seq false [{ val := 1/2, typeOk := true, convOk := true, h5Ok := true },
                  { val := 5, typeOk := true, convOk := true, h5Ok := true }]) =
     ({ ds := some { rank := 1, vals := [1/2, 5] }, stamp := 9 }, none) := by decide +kernel
+
+/-- non-vacuity: valid ticks on a linked dimension are accepted, the link goes, the ticks are stored -/
+example : (runWith writeDataSteps rangeTicks
+      { x := .seq false [{ val := 1, typeOk := true, convOk := true, h5Ok := true },
+                         { val := 2, typeOk := true, convOk := true, h5Ok := true }],
+        now := 3, file := { ds := none, stamp := 0, link := true } }).1.file =
+    { ds := some { rank := 1, vals := [1, 2] }, stamp := 0, link := false } := by rw [ticks_demo]
+/-- … descending ticks are refused (`ValueError`) with the link in place -/
+example : (runWith writeDataSteps rangeTicks
+      { x := .seq true [{ val := 2, typeOk := true, convOk := true, h5Ok := true },
+                        { val := 1, typeOk := true, convOk := true, h5Ok := true }],
+        now := 3, file := { ds := none, stamp := 0, link := true } }).2 = some .valueError := by decide +kernel
 
 end vectors
 
